@@ -14,6 +14,9 @@ func dbgDump(e *env) {
 			if len(f) > 1 {
 				n[f[1]]++
 			}
+			if strings.Contains(l, "prune") {
+				fmt.Println(e.maxFile, l)
+			}
 		}
 		fmt.Println(len(e.log), n)
 	}
